@@ -20,8 +20,9 @@
                                content they refer to)
     replayChain / replayStep   rebase_authorship.rs:rewrite_authorship_after_rebase_v2 and
                                rewrite_authorship_after_cherry_pick: every line a new commit adds
-                               is credited as the original history credited it (the note-copy
-                               shortcut is an optimisation of this, C15)
+                               is credited, line by line and by content, through the two tables
+                               of Model/RewriteCredit.lean (source HEAD state, notes of the replayed
+                               commits); the note-copy shortcut is an optimisation of this (C15)
     squashPrepare              rebase_authorship.rs:prepare_working_log_after_squash
                                (merge --squash: the merged lines become pending on the target)
 
@@ -29,6 +30,7 @@
   the operations: the new file contents are inputs, the attribution is computed.
 -/
 import GitAiModel.Model.Sys
+import GitAiModel.Model.RewriteCredit
 namespace GitAi.Sys
 
 /-- lines of `index` that `parent` does not have, credited by `author` -/
@@ -116,11 +118,15 @@ def midTip (chain : List ((List Nat × List Nat) × Note)) (fallback : List Nat)
 
 /-- rebase (`src` = the branch itself, `drop` = number of its commits that are rewritten, `mid` =
     the upstream commits that are new to the branch) and cherry-pick (`drop = 0`, `mid = []`,
-    `src` = the branch picked from). The tree is clean before and after. -/
-def replayStep (drop : Nat) (mid : List ((List Nat × List Nat) × Note))
+    `src` = the branch picked from, up to the last picked commit). `k` = how many of the newest source
+    commits are replayed (their notes are read). Every line a new commit adds is credited per line,
+    by content, through `replayCredit` (Model/RewriteCredit.lean): the source HEAD state first, then the
+    notes of the replayed commits; a line in neither table (typed while resolving a conflict) is
+    nobody's. The tree is clean before and after. -/
+def replayStep (drop : Nat) (mid : List ((List Nat × List Nat) × Note)) (k : Nat)
     (srcLog : List (List Nat × List Nat)) (srcNotes : List Note) (news : List (List Nat))
     (st : State) : State :=
-  let orig := blame srcLog srcNotes
+  let orig := replayCredit k srcLog srcNotes
   let st0 := undoN drop st
   let baseLog := mid.map (·.1) ++ st0.log
   let baseNotes := mid.map (·.2) ++ st0.notes
@@ -168,6 +174,13 @@ inductive ROp where
   | switchCarry (otherLog : List (List Nat × List Nat)) (otherNotes : List Note) (otherHead : List Nat)
   | switchMerge (otherLog : List (List Nat × List Nat)) (otherNotes : List Note) (otherHead ys : List Nat)
   | aborted          -- an operation that aborts, fails or is a dry run
+  /-- lines typed into the working tree while a rebase / cherry-pick is stopped at a conflict (`who` =
+      the session of the agent whose checkpoint reported them, `none` = a person). The checkpoint lands
+      in the working log of the commit the operation stopped on; `git rebase --continue` makes the
+      commit inside git and the completed operation is replayed from the source history alone
+      (rebase_hooks.rs:process_completed_rebase → rewrite_authorship_after_rebase_v2), which never
+      reads that working log: the state the later steps look at does not change. -/
+  | typed (who : Author) (ids : List Nat)
   deriving Repr
 
 def rstep (r : RState) : ROp → RState
@@ -178,12 +191,13 @@ def rstep (r : RState) : ROp → RState
   | .stashPop ys => stashPop ys r
   | .replay drop mid src news =>
     match src with
-    | some (l, n) => { r with st := replayStep drop mid l n news r.st }
-    | none => { r with st := replayStep drop mid r.st.log r.st.notes news r.st }
+    | some (l, n) => { r with st := replayStep drop mid news.length l n news r.st }
+    | none => { r with st := replayStep drop mid drop r.st.log r.st.notes news r.st }
   | .squash l n ys => { r with st := squashPrepare l n ys r.st }
   | .switchCarry l n h => { r with st := switchCarry l n h r.st }
   | .switchMerge l n h ys => { r with st := switchMerge l n h ys r.st }
   | .aborted => r
+  | .typed _ _ => r
 
 def rrun (r : RState) (ops : List ROp) : RState := ops.foldl rstep r
 
